@@ -107,9 +107,11 @@ theorem crash_safe_with_mutations (s0 : St) (h0 : InitLike s0) (hdv : s0.doVerif
     (drun (s0, none) (evs.take n)).1.diskOKi i = true := by
   have hw := persisted_weakly_sound s0 h0 hdv (evs.take n) (fun e he => hop e (List.mem_of_mem_take he))
     (fun e he => hv e (List.mem_of_mem_take he))
-  have hb := (drun_wsound (evs.take n) (s0, none) (fun e he => hop e (List.mem_of_mem_take he)) h0.wsound).bad
+  have hws := drun_wsound (evs.take n) (s0, none) (fun e he => hop e (List.mem_of_mem_take he)) h0.wsound
+  have hpb := drun_pb (evs.take n) (s0, none) (fun e he => hv e (List.mem_of_mem_take he))
+    ⟨hdv, fun i hi => by rw [h0.persisted] at hi; cases hi⟩
   obtain ⟨hfe, hp⟩ := restartTrusts_files _ i hi
-  exact hw.sound_of_files hb hfe i hp
+  exact hw.sound_of_files hws.bad hfe (fun j hj => hws.pad j (hpb.sub j hj)) i hp
 
 /-- The model of `forgetBitfield`'s early return: with no in-memory bitfield the record is left alone. -/
 theorem forget_skipped_when_nil (m : M) (hb : m.1.bf = none) :
